@@ -2,6 +2,7 @@ use engine::Property;
 pub mod bv;
 pub mod c01;
 pub mod c02;
+pub mod huge;
 pub mod stacks;
 
 pub fn properties() -> Vec<Box<dyn Property>> {
